@@ -269,6 +269,7 @@ func (ex *Exec) resetPath() {
 	ex.cellSeq = 0
 	ex.symSeq = 0
 	ex.mapSeq = 0
+	ex.syncMaps = nil
 	ex.globals = map[*ssa.Global]*Cell{}
 	ex.nondets = nil
 	ex.occ = map[string]int{}
